@@ -517,7 +517,12 @@ async fn client_handler<State>(
 
         // Generate the response based on the handlers
         let response = match &request {
-            Ok(request) if request.method == Method::Options => {
+            // An OPTIONS request for a route which does not exist is handled like any other request for
+            //   such a route, so the 404 response gets the same automatically generated headers.
+            Ok(request)
+                if request.method == Method::Options
+                    && get_handler(request, &subapps, &default_subapp).is_some() =>
+            {
                 let handler = get_handler(request, &subapps, &default_subapp);
 
                 match handler {
